@@ -386,6 +386,28 @@ func cmdCheck(args []string) int {
 	if *tier == "thorough" {
 		h := filepath.Join(*verif, "config", "replay", *prop+"_test.go")
 		if _, err := os.Stat(h); err == nil {
+			// the harness's whole battery once (a bounded test of the real code against the harness's oracle; it is
+			// listed under `bounded` and never counted as proved)
+			{
+				rf := ReplayFile{Property: *prop, Obligation: "battery", Kind: "battery", Status: "battery", Model: map[string]string{}, Harness: h}
+				out, ok := runHarness(*verif, *repo, *prop, h, &rf)
+				canaries = append(canaries, map[string]any{"obligation": "battery (bounded test of the real code by " + filepath.Base(h) + ")", "reproduced": ok})
+				cfg.Bounded = append(cfg.Bounded, "replay battery "+filepath.Base(h)+" run on the real code in the thorough tier: a finite set of inputs/histories against an oracle written from the property statement (bounded, not counted as proved)")
+				if ok {
+					rf.TestOutput, rf.Reproduced = trunc(out, 8000), true
+					rd := *replayDir
+					if rd == "" {
+						rd = filepath.Join(*verif, "replays")
+					}
+					os.MkdirAll(filepath.Join(rd, *prop), 0755)
+					path := filepath.Join(rd, *prop, "battery.json")
+					b, _ := json.MarshalIndent(rf, "", " ")
+					os.WriteFile(path, b, 0644)
+					violations++
+					lines = append(lines, fmt.Sprintf("VIOLATION property=%s replay=%s", *prop, path))
+					fmt.Fprintf(os.Stderr, "FAILED battery: the replay harness finds a violation on the real code\n")
+				}
+			}
 			for _, k := range kf.Findings {
 				if k.Property != *prop || k.Status != "fixed" {
 					continue
